@@ -49,21 +49,24 @@ import (
 // exit-on-panic wrapper of the HTTP server then terminates the whole process.
 const c28KeyNilTraf = "c28-muxparts-nil-tfhd-tfdt"
 
-// c28KeyAlloc: confirmed (TestVerifC28RegressHugeMoovSize): segmentFMP4ReadHeader allocates ftypSize+moovSize bytes and
-// segmentFMP4ReadDurationFromParts allocates tfhd/tfdt/trun size-8 bytes (wrapping to 4 GB for sizes below 8) straight
-// from 32-bit size fields of the file, without comparing them with the file size: one damaged size field in a 2 kB
-// segment makes every /list and /get allocate (and zero) up to 4 GB. Under a memory limit the Go runtime aborts the
-// process with "fatal error: out of memory", which cannot be recovered. Same class: a trun box whose sample count
-// does not fit the box (e.g. a traf retagged as trun) is handed to go-mp4, which builds count entries (up to 2^32,
-// 16 bytes each, zero bytes consumed per entry when the flags select no field): /get spins for minutes and grows
-// until the process is killed.
+// c28KeyAllocOwn: confirmed (TestVerifC28RegressHugeMoovSize): segmentFMP4ReadHeader allocates ftypSize+moovSize bytes,
+// segmentFMP4ReadDurationFromParts allocates tfhd/tfdt/trun size-8 bytes (wrapping to 4 GB for sizes below 8) and
+// segmentFMP4MuxParts allocates sample_size bytes straight from 32-bit fields of the file, without comparing them with
+// the file size: one damaged field in a 2 kB segment makes every /list and /get allocate (and zero) up to 4 GB. Under
+// a memory limit the Go runtime aborts the process with "fatal error: out of memory", which cannot be recovered.
+const c28KeyAllocOwn = "c28-box-and-sample-sizes-drive-allocation"
+
+// c28KeyAlloc (what remains in the go-mp4 dependency): a trun box whose sample count does not fit the box (e.g. a traf
+// retagged as trun, or the count word overwritten) is handed to go-mp4, which builds count entries (up to 2^32, 16 bytes
+// each, zero bytes consumed per entry when the flags select no per-sample field): /get spins for minutes and grows by
+// gigabytes until the process is killed.
 const c28KeyAlloc = "c28-size-fields-drive-allocation"
 
 const c28AllocLimit = 256 << 20 // bytes a battery of requests over a < 100 kB directory may allocate
 
 // c28HugeSizeField finds size fields that drive those allocations; clamp repairs them (used only while the
 // finding is listed as known, to keep searching behind it).
-func c28HugeSizeField(data []byte, clamp bool) bool {
+func c28HugeSizeField(data []byte, clamp bool, own bool) bool {
 	found := false
 	for i := 4; i+4 <= len(data); i++ {
 		tag := string(data[i : i+4])
@@ -72,7 +75,7 @@ func c28HugeSizeField(data []byte, clamp bool) bool {
 			continue
 		}
 		size := binary.BigEndian.Uint32(data[i-4:])
-		if size > 1<<25 || (small && size < 8) {
+		if own && (size > 1<<25 || (small && size < 8)) {
 			found = true
 			if clamp {
 				binary.BigEndian.PutUint32(data[i-4:], 16)
@@ -90,14 +93,16 @@ func c28HugeSizeField(data []byte, clamp bool) bool {
 				}
 			}
 			if count > 4096 && (per == 0 || uint64(count)*per > uint64(size)) {
-				found = true
-				if clamp {
-					binary.BigEndian.PutUint32(data[i+8:], 0)
+				if !own {
+					found = true
+					if clamp {
+						binary.BigEndian.PutUint32(data[i+8:], 0)
+					}
 				}
 				continue
 			}
 			// sample sizes: segmentFMP4MuxParts allocates sample_size bytes before reading the sample
-			if flags&0x200 != 0 {
+			if own && flags&0x200 != 0 {
 				o := i + 12
 				if flags&0x1 != 0 {
 					o += 4
@@ -554,10 +559,17 @@ func TestVerifC28Survive(t *testing.T) {
 					}
 				}
 			}
-			if c28HugeSizeField(data, false) {
+			if c28HugeSizeField(data, false, true) {
 				classes["huge-size-field"] = true
+				if kit.Known(c28KeyAllocOwn) {
+					c28HugeSizeField(data, true, true)
+					rec.Excluded(c28KeyAllocOwn)
+				}
+			}
+			if c28HugeSizeField(data, false, false) {
+				classes["trun-count-beyond-box"] = true
 				if kit.Known(c28KeyAlloc) {
-					c28HugeSizeField(data, true)
+					c28HugeSizeField(data, true, false)
 					rec.Excluded(c28KeyAlloc)
 				}
 			}
@@ -667,7 +679,7 @@ func TestVerifC28RegressTimescaleZero(t *testing.T) {
 
 // Pinned: moov size field 0x7fffffff in an otherwise intact 2 kB segment: one /list allocates 2 GB.
 func TestVerifC28RegressHugeMoovSize(t *testing.T) {
-	if kit.Known(c28KeyAlloc) {
+	if kit.Known(c28KeyAllocOwn) {
 		t.Skip("listed as known finding")
 	}
 	bases, err := c28LoadBases()
@@ -697,6 +709,35 @@ func TestVerifC28RegressHugeMoovSize(t *testing.T) {
 	runtime.ReadMemStats(&m1)
 	if alloc := m1.TotalAlloc - m0.TotalAlloc; alloc > c28AllocLimit {
 		t.Errorf("/list over one %d-byte segment whose moov size field reads 0x7fffffff allocated %d MB", len(data), alloc>>20)
+	}
+}
+
+// Pinned: the first traf of a segment retagged as trun: go-mp4 reads an absurd sample count out of the tfhd bytes.
+// A failure cannot be survived (the handler never returns): the watchdog reports and ends the process.
+func TestVerifC28RegressTrunCount(t *testing.T) {
+	if kit.Known(c28KeyAlloc) {
+		t.Skip("listed as known finding")
+	}
+	bases, err := c28LoadBases()
+	if err != nil {
+		t.Fatalf("builder: %v", err)
+	}
+	dir, err := os.MkdirTemp(os.Getenv("VERIF_WORKDIR"), "c28r-")
+	if err != nil {
+		t.Fatal(err)
+	}
+	defer os.RemoveAll(dir)
+	pdir := filepath.Join(dir, rbPathName)
+	os.MkdirAll(pdir, 0o755) //nolint:errcheck
+	sg := bases[0].Segs[0]
+	data := append([]byte(nil), sg.Data...)
+	copy(data[c28BoxesOf(sg.Info, "traf")[0].Off+4:], "trun")
+	if err := os.WriteFile(filepath.Join(pdir, sg.Name), data, 0o644); err != nil {
+		t.Fatal(err)
+	}
+	st, _ := rbSegStartFromName(sg.Name)
+	if err := c28Guarded(dir, []time.Time{st}, "first traf of an intact segment retagged as trun"); err != nil {
+		t.Errorf("%v", err)
 	}
 }
 
@@ -770,7 +811,10 @@ func FuzzVerifC28Segment(f *testing.F) {
 		if known && rbWouldDivideByZero(data) {
 			t.Skip()
 		}
-		if kit.Known(c28KeyAlloc) && c28HugeSizeField(data, false) {
+		if kit.Known(c28KeyAllocOwn) && c28HugeSizeField(data, false, true) {
+			t.Skip()
+		}
+		if kit.Known(c28KeyAlloc) && c28HugeSizeField(data, false, false) {
 			t.Skip()
 		}
 		dir, err := os.MkdirTemp(os.Getenv("VERIF_WORKDIR"), "c28f-")
